@@ -3,7 +3,9 @@
 MC:   specs/http/ReqChannel.tla: the channel is the identity on (method, path, query arguments, header value, body); TLC
       enumerates the input space (every field from 12 character classes, up to two fields away from the default, all
       methods and body kinds) and marks the cases the property does not decide.
-S->C: every request of the model is concretised (several concrete strings per class), built by the real Requester,
+      specs/http/ReqReuse.tla: sequences of requests over ONE reused Requester (Client.transmit -> Requester.rebuild); the
+      channel has no memory (InOrderIdentity).
+S->C: every request (and every sequence of 2, thorough also 3, requests over one Requester) of the model is concretised (several concrete strings per class), built by the real Requester,
       parsed by the real Requestant and turned into a WSGI environ by the real Server.buildEnviron; method, path, query
       arguments (standard decoder urllib.parse.parse_qsl), header value and body bytes must come out as they went in.
       This is model-generated input testing of an encode/decode pair: the model supplies the space and the identity oracle.
@@ -35,11 +37,10 @@ class Dummy:
     ca = ("127.0.0.1", 50001)
 
 
-def roundtrip(method, seg, qkey, qval, hval, bodykind):
-    from hio.core.http import clienting, serving
-    from hio.core import http
+def params(method, seg, qkey, qval, hval, bodykind):
+    """-> (request keyword arguments as an application passes them to Client.request(), the body bytes expected)"""
     path = "/top/" + seg + "/end"
-    kw = {}
+    kw = {"method": method, "path": path, "qargs": {qkey: qval, "fix": "1"}, "headers": {"X-H": hval} if hval is not None else {}}
     body = b""
     if method != "GET":
         if bodykind == "raw":
@@ -51,13 +52,12 @@ def roundtrip(method, seg, qkey, qval, hval, bodykind):
         elif bodykind == "form":
             kw["fargs"] = {"f": "v1", "g": "v 2"}
             body = None
-    headers = {"X-H": hval} if hval is not None else {}
-    try:
-        rq = clienting.Requester(hostname="h", port=8080, scheme="http", method=method, path=path, qargs={qkey: qval, "fix": "1"},
-                                 headers=dict(headers), **kw)
-        wire = rq.build()
-    except UnicodeEncodeError as ex:
-        return {"unencodable": str(ex)}
+    return kw, body
+
+
+def recover(wire, path, body):
+    from hio.core.http import serving
+    from hio.core import http
     p = serving.Requestant(msg=bytearray(wire), remoter=Dummy())
     while p.parser:
         before = len(p.msg)
@@ -66,6 +66,8 @@ def roundtrip(method, seg, qkey, qval, hval, bodykind):
             break
     if not p.ended or p.errored:
         return {"error": "server could not parse %r: %s" % (wire, p.error)}
+    if p.msg:
+        return {"error": "server left %r unparsed of %r" % (bytes(p.msg), wire)}
     srv = http.Server.__new__(http.Server)
     srv.scheme, srv.name = "http", "s"
     srv.servant = type("S", (), {"eha": ("127.0.0.1", 8080)})()
@@ -73,6 +75,38 @@ def roundtrip(method, seg, qkey, qval, hval, bodykind):
     return {"wire": wire, "method": env["REQUEST_METHOD"], "path": unquote(env["PATH_INFO"]), "path2": p.path,
             "qargs": dict(parse_qsl(env["QUERY_STRING"], keep_blank_values=True)), "hval": env.get("HTTP_X_H"),
             "body": env["wsgi.input"].read(), "want_path": path, "want_body": body, "ctype": env.get("CONTENT_TYPE", "")}
+
+
+def roundtrip(method, seg, qkey, qval, hval, bodykind):
+    from hio.core.http import clienting
+    kw, body = params(method, seg, qkey, qval, hval, bodykind)
+    try:
+        rq = clienting.Requester(hostname="h", port=8080, scheme="http", **kw)
+        wire = rq.build()
+    except UnicodeEncodeError as ex:
+        return {"unencodable": str(ex)}
+    return recover(wire, kw["path"], body)
+
+
+def roundtrip_seq(reqs):
+    """several requests over one reused Requester, the way Client.transmit() does it -> list of results"""
+    from hio.core.http import clienting
+    out, rq = [], None
+    for r in reqs:
+        kw, body = params(*r)
+        try:
+            if rq is None:
+                rq = clienting.Requester(hostname="h", port=8080, scheme="http", **kw)
+                wire = rq.build()
+            else:
+                wire = rq.rebuild(**kw)
+        except UnicodeEncodeError as ex:
+            out.append({"unencodable": str(ex)})
+            if rq is None:
+                break
+            continue
+        out.append(recover(wire, kw["path"], body))
+    return out
 
 
 def judge(r, seg, qkey, qval, hval, method, bodykind, dontcare):
@@ -97,6 +131,50 @@ def judge(r, seg, qkey, qval, hval, method, bodykind, dontcare):
         if dict(parse_qsl(r["body"].decode("utf-8"), keep_blank_values=True)) != {"f": "v1", "g": "v 2"}:
             return "form fields recovered as %r" % r["body"]
     return None
+
+
+def concrete(q, k):
+    pick = lambda c: CLASS[c][k % len(CLASS[c])]
+    return (q["method"], pick(q["seg"]), pick(q["qkey"]), pick(q["qval"]), pick(q["hval"]), q["body"])
+
+
+def judge_seq(reqs, dontcare, k, results):
+    for i, (q, res) in enumerate(zip(reqs, results)):
+        method, seg, qkey, qval, hval, body = concrete(q, k)
+        bad = judge(res, seg, qkey, qval, hval, method, body, dontcare[i])
+        if bad:
+            return "request %d of %d over one Requester (%s /top/%r/end?%r=%r X-H: %r body %s): %s" % (
+                i + 1, len(reqs), method, seg, qkey, qval, hval, body, bad)
+    if len(results) < len(reqs):
+        return "only %d of %d requests were built" % (len(results), len(reqs))
+    return None
+
+
+def run_reuse(ctx, classes):
+    consts = {"Classes": classes, "Methods": {"GET", "POST"}, "BodyKinds": {"none", "raw", "json", "form"},
+              "FirstAway": 0 if ctx.quick else 1, "NextAway": 1, "MaxReqs": 2}
+    r = ctx.tlc("http", "ReqReuse", core.cfg_text(constants=consts, invariants=["InOrderIdentity"]))
+    for v in r.violated:
+        ctx.violation("the model violates %s" % v, {"tlc": r.out[-2000:]})
+    gc = [consts] if ctx.quick else [consts, dict(consts, Classes={"plain", "amp", "latin"}, FirstAway=0, MaxReqs=3)]
+    for c in gc:
+        recs = ctx.tlc("http", "ReqReuseGen", core.cfg_text(constants=c, constraints=["Emit"]), workers=1).tagged_json("RS")
+        if len(recs) < 1000:
+            raise core.MachineryError("request sequence dump too small: %d" % len(recs))
+        for i, rec in enumerate(recs):
+            k = i % 3
+            reqs, dc = list(rec["reqs"]), list(rec["dontcare"])
+            ctx.case(("seq", k) + tuple(tuple(sorted(q.items())) for q in reqs), {"requests": reqs} if i == 700 else None)
+            try:
+                with core.watchdog():
+                    results = roundtrip_seq([concrete(q, k) for q in reqs])
+                bad = judge_seq(reqs, dc, k, results)
+            except core.Hang:
+                bad = "did not return"
+            except Exception as ex:
+                bad = "raised %s: %s" % (type(ex).__name__, ex)
+            if bad:
+                ctx.violation(bad, {"seq": reqs, "k": k, "dontcare": dc})
 
 
 def run(ctx):
@@ -130,10 +208,12 @@ def run(ctx):
         if bad:
             ctx.violation("%s /top/%r/end?%r=%r X-H: %r body %s: %s" % (q["method"], seg, qkey, qval, hval, q["body"], bad),
                           {"req": q, "k": k, "dontcare": rec["dontcare"]})
+    run_reuse(ctx, classes)
     ctx.exhaustive = True
     return ctx.finish(level="model_checking",
                       rule="one case per request of the model (method, class of path segment / query key / query value / header value with "
-                           "at most two (quick) / three (thorough) away from the default, body kind) with one of 1-3 concrete strings per class",
+                           "at most two (quick) / three (thorough) away from the default, body kind) with one of 1-3 concrete strings per class; one case per sequence of 2 (thorough: also 3 over 3 classes) such "
+                           "requests over one reused Requester",
                       assumptions=["'?', '#' and an empty segment inside a path, an empty query key, and blank or empty header values are "
                                    "don't-cares (URL / HTTP syntax gives them another meaning)",
                                    "header values outside latin-1 cannot be put on the wire: the client refusing them is accepted",
@@ -141,6 +221,12 @@ def run(ctx):
 
 
 def replay_case(ctx, case):
+    if "seq" in case:
+        try:
+            bad = judge_seq(case["seq"], case["dontcare"], case["k"], roundtrip_seq([concrete(q, case["k"]) for q in case["seq"]]))
+        except Exception as ex:
+            bad = "raised %s: %s" % (type(ex).__name__, ex)
+        return [bad] if bad else []
     q, k = case["req"], case["k"]
     pick = lambda c: CLASS[c][k % len(CLASS[c])]
     seg, qkey, qval, hval = pick(q["seg"]), pick(q["qkey"]), pick(q["qval"]), pick(q["hval"])
